@@ -593,13 +593,13 @@ func TestVerif_C40(t *testing.T) {
 		"completed requests = the LBClient's own per-client counter of handled requests",
 		"scan reads are localised to the window between the neighbouring harness-visible events of the calling thread; concurrent modifications inside the window make the oracle lenient, never stricter",
 		"LBClient.Clients is non-empty at construction (documented precondition); RemoveClients before the first call removes nothing because Clients are loaded lazily (treated as uncertain membership, not as a violation)")
-	b := vrt.Pick(r, 2, 3)
+	b, B := 2, vrt.Pick(r, 2, 3) // B: the smaller systems get one more deviation in the thorough tier
 	do, dd, dt := c40op{method: 0}, c40op{method: 1}, c40op{method: 2}
 	after := func(d time.Duration, op c40op) c40op { op.pause = d; return op }
 	sec := time.Second
 	F, T := []bool{false}, []bool{true}
 	scns := []*c40scn{
-		{name: "2c/overlap-1s-calls", bound: b, tf: true, maxPen: 2, nClients: 2, base: []int{0, 0}, hold: []time.Duration{sec, sec},
+		{name: "2c/overlap-1s-calls", bound: B, tf: true, maxPen: 2, nClients: 2, base: []int{0, 0}, hold: []time.Duration{sec, sec},
 			callers: [][]c40op{{do}, {dt}, {dd, do}}},
 		{name: "2c/c0-fails/penalty-routes-away", bound: b, tf: true, maxPen: 2, nClients: 2, base: []int{0, 0}, plan: [][]bool{T, F},
 			callers: [][]c40op{{do, do}, {dt}, {after(3*sec, dd)}}},
@@ -607,21 +607,21 @@ func TestVerif_C40(t *testing.T) {
 			callers: [][]c40op{{do, do}, {dt}, {dd}}},
 		{name: "2c/both-fail/max3", bound: b, tf: true, maxPen: 3, nClients: 2, base: []int{0, 0}, plan: [][]bool{T, {true, false}},
 			callers: [][]c40op{{do, do}, {dt, dt}, {dd}}},
-		{name: "3c/tiebreak-by-completed", bound: b, tf: false, maxPen: 2, nClients: 3, base: []int{0, 0, 0},
+		{name: "3c/tiebreak-by-completed", bound: B, tf: false, maxPen: 2, nClients: 3, base: []int{0, 0, 0},
 			callers: [][]c40op{{do, do}, {dt}, {dd}}},
-		{name: "3c/uneven-base-pending", bound: b, tf: false, maxPen: 2, nClients: 3, base: []int{1, 0, 1}, hold: []time.Duration{0, sec, 0},
+		{name: "3c/uneven-base-pending", bound: B, tf: false, maxPen: 2, nClients: 3, base: []int{1, 0, 1}, hold: []time.Duration{0, sec, 0},
 			callers: [][]c40op{{do, do}, {dt}, {dd}}},
-		{name: "2c/gate-holds-first-call", bound: b, tf: false, maxPen: 2, nClients: 2, base: []int{0, 0}, gate: []int{2, 0},
+		{name: "2c/gate-holds-first-call", bound: B, tf: false, maxPen: 2, nClients: 2, base: []int{0, 0}, gate: []int{2, 0},
 			callers: [][]c40op{{do}, {dt}, {dd}}},
-		{name: "2c/expiry-races-with-scan", bound: b, tf: true, maxPen: 2, nClients: 2, base: []int{0, 0}, plan: [][]bool{{true, false}, F},
+		{name: "2c/expiry-races-with-scan", bound: B, tf: true, maxPen: 2, nClients: 2, base: []int{0, 0}, plan: [][]bool{{true, false}, F},
 			callers: [][]c40op{{do}, {after(3*sec, dt)}, {after(3*sec, dd)}}},
-		{name: "3c/health-callback-status500", bound: b, tf: true, maxPen: 2, nClients: 3, base: []int{0, 0, 0}, plan: [][]bool{F, T, F}, health: true,
+		{name: "3c/health-callback-status500", bound: B, tf: true, maxPen: 2, nClients: 3, base: []int{0, 0, 0}, plan: [][]bool{F, T, F}, health: true,
 			callers: [][]c40op{{do, do}, {dt}, {dd}}},
-		{name: "2c/warm/remove-all-races-with-calls", bound: b, tf: false, maxPen: 2, nClients: 2, base: []int{0, 0}, warm: true,
+		{name: "2c/warm/remove-all-races-with-calls", bound: B, tf: false, maxPen: 2, nClients: 2, base: []int{0, 0}, warm: true,
 			callers: [][]c40op{{do}, {dt}, {after(sec, dd)}}, member: []c40mem{{kind: "remove", ids: []int{0, 1, 2}}}},
-		{name: "2c/cold/remove-all-races-with-first-call", bound: b, tf: false, maxPen: 2, nClients: 2, base: []int{0, 0},
+		{name: "2c/cold/remove-all-races-with-first-call", bound: B, tf: false, maxPen: 2, nClients: 2, base: []int{0, 0},
 			callers: [][]c40op{{do}, {dt}, {after(sec, dd)}}, member: []c40mem{{kind: "remove", ids: []int{0, 1, 2}}}},
-		{name: "2c/warm/add-then-remove-c0", bound: b, tf: false, maxPen: 2, nClients: 2, base: []int{0, 0, 0}, hold: []time.Duration{sec, 0, 0}, warm: true,
+		{name: "2c/warm/add-then-remove-c0", bound: B, tf: false, maxPen: 2, nClients: 2, base: []int{0, 0, 0}, hold: []time.Duration{sec, 0, 0}, warm: true,
 			callers: [][]c40op{{do}, {dt}, {after(sec, dd)}}, member: []c40mem{{kind: "add", ids: []int{2}}, {kind: "remove", ids: []int{0}}}},
 		{name: "2c/cold/add-races-with-first-call", bound: b, tf: false, maxPen: 2, nClients: 2, base: []int{1, 1, 0},
 			callers: [][]c40op{{do}, {dt}, {dd}}, member: []c40mem{{kind: "add", ids: []int{2}}}},
@@ -650,6 +650,6 @@ func TestVerif_C40(t *testing.T) {
 		}
 		scs = append(scs, mcx.Scenario{Name: s.name, Cfg: mcrt.Config{Bound: s.bound, TimerFirst: s.tf, Horizon: h}, Body: c40body(s), Check: c40check})
 	}
-	r.Set("preemption_bound", fmt.Sprint(b))
+	r.Set("preemption_bound", fmt.Sprintf("%d (smaller systems: %d)", b, B))
 	mcx.Run(r, scs)
 }
